@@ -344,6 +344,14 @@ func (s *subscriber) sendMessageToSubscriber(msg *message.Message, logFields wat
 	s.sending.Lock()
 	defer s.sending.Unlock()
 
+	select {
+	case <-s.closing:
+		// the subscription is closing: the previous delivery may still be unsettled, nothing more is delivered
+		s.logger.Trace("Closing, message discarded", logFields)
+		return
+	default:
+	}
+
 	ctx, cancelCtx := context.WithCancel(s.ctx)
 	defer cancelCtx()
 
